@@ -1,4 +1,5 @@
 import Spok.Lemmas.JsonLoad
+import Spok.Json.Report
 import Spok.Judge.Json
 /-! # C10 at the byte level of `.spok/cache.json`
 
@@ -130,6 +131,14 @@ theorem C10_init_file (names : List Bytes) (hn : names.Nodup) (hv : ∀ n ∈ na
       intro v hmem
       obtain ⟨n, hnm, he⟩ := List.mem_map.mp hmem
       exact hk' (by cases he; exact hnm))
+
+/-- the hypotheses of `C10_init_file` are met by ordinary task names -/
+example : [Json.ascii "build", Json.ascii "test", Json.ascii "lint"].Nodup ∧
+    ∀ n ∈ [Json.ascii "build", Json.ascii "test", Json.ascii "lint"], ValidUtf8 n := by
+  refine ⟨by decide, ?_⟩
+  intro n hn
+  simp only [List.mem_cons, List.mem_nil_iff, or_false] at hn
+  rcases hn with rfl | rfl | rfl <;> (intro r hr; revert r; decide +kernel)
 
 /-- after "truncate, then write some prefix of the new contents" the file is `valid` exactly when the write completed
     — the two micro-steps `corrupt`, `valid s.mem` of `Run.step` -/
